@@ -4,8 +4,11 @@
 // storage.rs and checked to be pairwise prefix-free, which is what justifies the abstraction).
 #![allow(unused, dead_code, unused_mut, static_mut_refs, non_snake_case)]
 pub const CAP: usize = 3;
-pub const NS: usize = 3;
-pub const MREC: usize = 2;
+#[cfg(not(ufs_small))] pub const NS: usize = 3;
+#[cfg(not(ufs_small))] pub const MREC: usize = 2;
+// quick tier (RUSTFLAGS=--cfg ufs_small): 2 script identities, 1 pending record
+#[cfg(ufs_small)] pub const NS: usize = 2;
+#[cfg(ufs_small)] pub const MREC: usize = 1;
 pub const BCAP: usize = 6;
 pub const VCAP: usize = 8;
 #[macro_use] #[path = "../../prelude/macros.rs"] mod pmacros;
@@ -63,6 +66,7 @@ mod harness {
         // pending records exist only while scripts are registered; starts arbitrary and distinct
         if cnt == 0 { kani::assume(npending == 0); }
         let s1: u64 = kani::any(); let s2: u64 = kani::any(); kani::assume(s1 != s2);
+        kani::assume(npending <= MREC);
         if npending >= 1 { DB.put_raw(&mkey(s1), &[1u8; 8]); }
         if npending >= 2 { DB.put_raw(&mkey(s2), &[1u8; 8]); }
         // invariant J (what block-filter processing maintains): a script's number lags MIN only while records are pending
@@ -70,10 +74,10 @@ mod harness {
         Pre { num, min, npending }
     }
 
-    fn set_scripts<const NCMD: usize, const MAXP: usize>() {
+    fn set_scripts<const NCMD: usize, const MAXP: usize, const CMD: u8>() {
         let st = Storage { db: DbHandle };
         let pre = unsafe { arbitrary_store(MAXP) };
-        let cmd: u8 = kani::any(); kani::assume(cmd < 3);
+        let cmd: u8 = if CMD < 3 { CMD } else { let c: u8 = kani::any(); kani::assume(c < 3); c };
         let n: usize = kani::any(); kani::assume(n <= NCMD);
         let mut scripts = Vec::new(); let mut ids = [0usize; 2]; let mut nums = [0u64; 2];
         let mut i = 0;
@@ -102,13 +106,13 @@ mod harness {
                 let mut zero = false; let mut i = 0; while i < 2 { if i < n && nums[i] == 0 && cmd != 2 { zero = true; } i += 1; }
                 assert!((GENESIS_FILTERED > 0) == zero, "SPEC set_scripts: genesis block filtered iff a given script starts at 0");
             }
-            kani::cover!(cmd == 1 && pre.npending > 0 && n > 0, "partial with pending records");
-            kani::cover!(cmd == 2 && n == NCMD, "delete");
-            kani::cover!(cmd == 0 && n == NCMD && (NCMD < 2 || ids[0] == ids[1]), "replace (with a duplicated script when two are given)");
+            kani::cover!(pre.npending > 0 && n == NCMD && (NCMD < 2 || cmd != 0 || ids[0] == ids[1]), "the command with pending records (replace: with a duplicated script when two are given)");
         }
     }
-    #[kani::proof] #[kani::unwind(10)] fn set_scripts_q() { set_scripts::<1, 1>(); }
-    #[kani::proof] #[kani::unwind(10)] fn set_scripts_t() { set_scripts::<2, 2>(); }
+    #[kani::proof] #[kani::unwind(10)] fn set_scripts_all_q() { set_scripts::<1, 1, 0>(); }
+    #[kani::proof] #[kani::unwind(10)] fn set_scripts_partial_q() { set_scripts::<1, 1, 1>(); }
+    #[kani::proof] #[kani::unwind(10)] fn set_scripts_delete_q() { set_scripts::<1, 1, 2>(); }
+    #[kani::proof] #[kani::unwind(10)] fn set_scripts_t() { set_scripts::<2, 2, 3>(); }
 
     /// O8.1: crash at any write boundary of update_filter_scripts.  `DB.crash_after = k`: the first k write operations (a batch is
     /// one atomic operation) take effect, the rest are lost.  Recoverability invariant R2 = J: on the surviving store a script's
